@@ -20,7 +20,7 @@ from . import dsl
 from .dsl import Num, And, Or, Not, Implies, ite, is_z3
 from .heap import RefV, StrV, TupleV, FrameV, DictV, ListV, OpaqueV, idx_f, cls_f
 from .state import Undecided
-from .symexec import Executor, BoundFn, NONEV, _Raised, _SliceV, ModV
+from .symexec import Executor, BoundFn, NONEV, _Raised, _SliceV, ModV, PyObjV
 
 idxlen_c = z3.Int("idxlen")
 inidx_f = z3.Function("in_index", z3.IntSort(), z3.BoolSort())
@@ -31,9 +31,18 @@ for _n in ("year", "month", "quarter", "week", "day", "date", "isoyear", "isowee
     CAL[_n] = z3.Function("cal_" + _n, z3.IntSort(), z3.IntSort())
 
 # result of calling an opaque algo (user code) on a target in this run, and ghost bookkeeping
-algoret_f = z3.Function("algo_returns", dsl.Ref, z3.BoolSort())
+algoret_f = z3.Function("algo_returns", dsl.Ref, z3.BoolSort())  # truthiness of what the algo returns in this run
+algoisfalse_f = z3.Function("algo_returns_the_False_object", dsl.Ref, z3.BoolSort())
+algoistrue_f = z3.Function("algo_returns_the_True_object", dsl.Ref, z3.BoolSort())
 inlist_f = z3.Function("in_dates", dsl.Ref, z3.IntSort(), z3.BoolSort())
 searchsorted_f = z3.Function("searchsorted", z3.IntSort(), z3.IntSort())
+
+
+class DateSeqV(object):
+    """index[offset:] : the labels of the shared universe index from a position on"""
+
+    def __init__(self, offset):
+        self.offset = offset
 
 
 class TempV(object):
@@ -95,6 +104,12 @@ class AlgoExecutor(Executor):
             return [(st, TupleV(base.items[lo:hi]))]
         if isinstance(base, TempV) and isinstance(i, str):
             return self.temp_get(st, base, i)
+        if isinstance(base, OpaqueV) and base.field == "dates":
+            if isinstance(i, _SliceV) and i.hi is None:
+                return [(st, DateSeqV(self._const_int(i.lo) if i.lo is not None else 0))]
+            k = self._num(st, i)
+            st.oblige("%s/index-in-range" % self.cur_func[-1], And(k.r >= 0, k.r < idxlen_c), kind="side", props=("C10",))
+            return [(st, self.index_facts_pos(st, k))]
         return None
 
     def _const_int(self, v):
@@ -114,6 +129,9 @@ class AlgoExecutor(Executor):
             return [(st, BoundFn("searchsorted", attr, recv=obj.recv))]
         if isinstance(obj, RefV) and attr in ("temp", "perm"):
             return [(st, TempV(obj, attr))]
+        from .heap import HistSlice
+        if isinstance(obj, HistSlice) and attr in ("calc_perf_stats",):
+            return [(st, BoundFn("opaque_call", attr, recv=obj))]
         return None
 
     def ext_call_value(self, st, f, pos, kw):
@@ -132,6 +150,8 @@ class AlgoExecutor(Executor):
                 return [(st, TupleV([Num(CAL[n](x.r), False, True) for n in ("isoyear", "isoweek", "isoweekday")]))]
         if isinstance(f, RefV):
             return self.call_object(st, f, pos, kw)
+        if isinstance(f, BoundFn) and f.kind == "opaque_call":
+            return [(st, OpaqueV(None, f.name))]
         return None
 
     def ext_hasattr(self, st, e):
@@ -163,7 +183,8 @@ class AlgoExecutor(Executor):
             if fi is not None and not opaque:
                 return self.call_function(st, fi, obj, pos, kw)
         # opaque algo: ghost log + uninterpreted result
-        r = algoret_f(obj.term)
+        r = PyObjV(algoret_f(obj.term), algoisfalse_f(obj.term), algoistrue_f(obj.term))
+        st.assume(And(Implies(r.isfalse, Not(r.truthy)), Implies(r.istrue, r.truthy)))
         st.log.append(("<algo>", obj, tuple(pos)))
         # ghost bookkeeping of the invocation: g_calls[a] += 1, g_clock[target] += 1, g_stamp[a] = clock
         if pos and isinstance(pos[0], RefV):
